@@ -422,8 +422,10 @@ def mutate_case(rng, case, n):
             r = rng.random()
             if r < 0.4:
                 del c[i]
-            elif r < 0.7:
+            elif r < 0.65:
                 c.insert(i, rng.choice(case[1:]))
+            elif r < 0.8:
+                c.insert(i, rng.choice(["close", "flush", "carrier wscript p", "carrier wscript 19 p", "carrier clear"]))
             else:
                 c.insert(i, f"read {rng.choice(READ_BUFS)}")
             if len(c) < 2:
